@@ -51,6 +51,7 @@ fn main() {
         "C12" => props::c12::run(cx),
         "C13" => props::c13::run(cx),
         "C18" => props::c18::run(cx),
+        "C20" => props::c20::run(cx),
         _ => {
             eprintln!("hvc: no check for {}", id);
             std::process::exit(2);
